@@ -109,8 +109,8 @@ Section Fixed.
 End Fixed.
 
 (** ** the two repaired defects, kept as witnesses: the code before each repair violates the property *)
-Definition before_fix1 : mode := {| fix1 := false; fix7 := true; memo := true; fixd := true |}.
-Definition before_fix7 : mode := {| fix1 := true; fix7 := false; memo := true; fixd := true |}.
+Definition before_fix1 : mode := {| fix1 := false; fix7 := true; memo := true; fixd := true; fullkey := true |}.
+Definition before_fix7 : mode := {| fix1 := true; fix7 := false; memo := true; fixd := true; fullkey := true |}.
 
 Definition w_Q : name := [81]%N.
 Definition w_Int : name := [73; 110; 116]%N.
@@ -119,7 +119,7 @@ Definition w_f : name := [102]%N.
 Definition w_schema : schema :=
   {| types := [(w_Int, NScalar KInt); (w_Float, NScalar KFloat);
                (w_Q, NObject [(w_f, StNonNull (StNamed w_Int)); (w_Float, StNamed w_Float)] [])];
-     query := w_Q; mutation := None; subscription := None; s_inputs := []; s_argdefs := [] |}.
+     query := w_Q; mutation := None; subscription := None; s_inputs := []; s_dt := []; s_argdefs := [] |}.
 (** {f}  with  f: Int!  whose resolver returns a string *)
 Definition w_doc1 : document :=
   {| op_kind := OpQuery; op_pos := {| line := 1; col := 1 |};
@@ -161,7 +161,7 @@ Definition w_schema_l : schema :=
   {| types := [(w_Int, NScalar KInt);
                (w_Q, NObject [(w_l, StList (StNamed w_O))] []);
                (w_O, NObject [(w_a, StNamed w_Int)] [])];
-     query := w_Q; mutation := None; subscription := None; s_inputs := []; s_argdefs := [] |}.
+     query := w_Q; mutation := None; subscription := None; s_inputs := []; s_dt := []; s_argdefs := [] |}.
 Definition w_doc_l : document :=
   {| op_kind := OpQuery; op_pos := {| line := 1; col := 1 |};
      op_sels := [SField None w_l {| line := 1; col := 3 |} []
@@ -173,8 +173,8 @@ Definition w_W_l : outcome :=
 
 (** before the repair (every traversal reports): one error with the cache, two without; after it:
     one, with and without *)
-Definition before_fixd : mode := {| fix1 := true; fix7 := true; memo := true; fixd := false |}.
-Definition before_fixd_nomemo : mode := {| fix1 := true; fix7 := true; memo := false; fixd := false |}.
+Definition before_fixd : mode := {| fix1 := true; fix7 := true; memo := true; fixd := false; fullkey := true |}.
+Definition before_fixd_nomemo : mode := {| fix1 := true; fix7 := true; memo := false; fixd := false; fullkey := true |}.
 
 Theorem collect_cache_transparent_refuted_before_fixd :
   exists S D E fuel W,
@@ -187,3 +187,63 @@ Proof.
   exists (Some (JObj [(w_l, JArr [JObj []; JObj []])])), {| e_path := []; e_locs := [{| line := 1; col := 9 |}] |}.
   vm_compute. repeat split; reflexivity.
 Qed.
+
+(** ** a memo key that keeps only (type, first selection, number of selections) is NOT transparent.
+    { p: o { ...F o { s } }  q: o { ...F o { sn } } }   fragment F on O { o { __typename } }
+    The node o of F merges with o{s} under p and with o{sn} under q: the merged sub-selection lists
+    [__typename@F; s] and [__typename@F; sn] have the same type O, the same first node and the
+    same length, so q.o is executed with the grouped field set cached for p.o. *)
+Definition coarse_memo : mode := {| fix1 := true; fix7 := true; memo := true; fixd := true; fullkey := false |}.
+Definition w_o : name := [111]%N.
+Definition w_p : name := [112]%N.
+Definition w_q : name := [113]%N.
+Definition w_sn : name := [115; 110]%N.
+Definition w_F : name := [70]%N.
+Definition w_schema_k : schema :=
+  {| types := [(w_Int, NScalar KInt);
+               (w_Q, NObject [(w_o, StNamed w_O)] []);
+               (w_O, NObject [(w_o, StNamed w_O); (w_s, StNamed w_Int); (w_sn, StNamed w_Int)] [])];
+     query := w_Q; mutation := None; subscription := None; s_inputs := []; s_dt := []; s_argdefs := [] |}.
+Definition w_at (l c : N) : pos := {| line := l; col := c |}.
+Definition w_doc_k : document :=
+  {| op_kind := OpQuery; op_pos := w_at 1 1;
+     op_sels := [ SField (Some w_p) w_o (w_at 1 2) []
+                    [SSpread w_F (w_at 1 8) []; SField None w_o (w_at 1 13) [] [SField None w_s (w_at 1 16) [] []]];
+                  SField (Some w_q) w_o (w_at 1 20) []
+                    [SSpread w_F (w_at 1 26) []; SField None w_o (w_at 1 31) [] [SField None w_sn (w_at 1 34) [] []]] ];
+     frags := [ {| fr_name := w_F; fr_cond := w_O;
+                   fr_sels := [SField None w_o (w_at 2 17) [] [SField None n_typename (w_at 2 20) [] []]] |} ];
+     d_args := []; d_vars := [] |}.
+Definition w_W_k : outcome :=
+  OObj w_Q [(w_o, OObj w_O [(w_o, OObj w_O [(w_s, OLeaf (GInt IInt 1)); (w_sn, OLeaf (GInt IInt 2))])])].
+
+Theorem collect_cache_transparent_refuted_coarse_key :
+  exists S D E fuel n W,
+    type_names_okb S = true /\ doc_positions_okb D = true /\ doc_ok S D E fuel n = true /\
+    run coarse_memo S D E fuel W <> run fixed_nomemo S D E fuel W /\
+    run fixed S D E fuel W = run fixed_nomemo S D E fuel W /\
+    (* the two merged lists: different selections, same coarse key, different full key *)
+    exists ot l1 l2, l1 <> l2 /\ coarse_key ot l1 = coarse_key ot l2 /\ cache_key ot l1 <> cache_key ot l2.
+Proof.
+  exists w_schema_k, w_doc_k, [], 4%nat, 4%nat, w_W_k.
+  repeat split; try (vm_compute; reflexivity); try (vm_compute; discriminate).
+  exists w_O, [SField None n_typename (w_at 2 20) [] []; SField None w_s (w_at 1 16) [] []],
+         [SField None n_typename (w_at 2 20) [] []; SField None w_sn (w_at 1 34) [] []].
+  repeat split; try (vm_compute; reflexivity); try (vm_compute; discriminate); discriminate.
+Qed.
+
+(** ** the level bound of [doc_ok]: [doc_depth D + 1] is not enough (nesting continues through
+    fragment spreads), [default_fuel D] is, here:  { o { ...F } }  F on O { o { ...G } }  G on O { o { s } } *)
+Definition w_G : name := [71]%N.
+Definition w_doc_lv : document :=
+  {| op_kind := OpQuery; op_pos := w_at 1 1;
+     op_sels := [ SField None w_o (w_at 1 2) [] [SSpread w_F (w_at 1 6) []] ];
+     frags := [ {| fr_name := w_F; fr_cond := w_O; fr_sels := [SField None w_o (w_at 2 17) [] [SSpread w_G (w_at 2 21) []]] |};
+                {| fr_name := w_G; fr_cond := w_O; fr_sels := [SField None w_o (w_at 3 17) [] [SField None w_s (w_at 3 21) [] []]] |} ];
+     d_args := []; d_vars := [] |}.
+
+Theorem level_bound_depth_plus_one_refuted :
+  exists S D E,
+    doc_ok S D E (default_fuel D) (doc_depth D + 1) = false /\
+    doc_ok S D E (default_fuel D) (default_fuel D) = true.
+Proof. exists w_schema_k, w_doc_lv, []. vm_compute. split; reflexivity. Qed.
